@@ -433,6 +433,70 @@ def import_findings(m, o, sync):
     return fs
 
 
+def collect_handles(t, v, kind, out):
+    """handles at `own` / `borrow` positions of a value tree (t: type tree with annotated handles `own@…`)"""
+    if isinstance(t, str):
+        if (t == kind or t.startswith(kind + "@")) and v[0] == "h":
+            out.append(int(v[1]))
+        return
+    k = t[0]
+    if k in ("list", "flist"):
+        for x in v[1:]: collect_handles(t[1], x, kind, out)
+    elif k == "map":
+        for e in v[1:]:
+            collect_handles(t[1], e[1], kind, out); collect_handles(t[2], e[2], kind, out)
+    elif k in ("record", "tuple"):
+        for x, ft in zip(v[1:], t[1:]): collect_handles(ft, x, kind, out)
+    elif k in ("variant", "result"):
+        i = int(v[1])
+        if len(v) > 2: collect_handles(t[1 + i], v[2], kind, out)
+    elif k == "option":
+        if len(v) > 2: collect_handles(t[1], v[2], kind, out)
+
+
+def handles_of(m, vals, ret):
+    """(own handles in the arguments, borrowed handles in the arguments, own handles in the result)"""
+    po, pb, ro = [], [], []
+    for t, v in zip(m["params_ann"], vals):
+        collect_handles(bc.parse(t), bc.parse(v), "own", po)
+        collect_handles(bc.parse(t), bc.parse(v), "borrow", pb)
+    if m["result"] is not None and ret is not None:
+        collect_handles(bc.parse(m["result_ann"]), bc.parse(ret), "own", ro)
+    return po, pb, ro
+
+
+def ownership_findings(kind, m, o):
+    """ownership of resource handles: which handles the guest must drop in this scenario, against the drops observed.
+    Import: an `own` argument belongs to the callee once it has started (the guest must NOT drop it) and stays with the
+    caller if the call was cancelled before (the guest must drop it); the result's `own` handles belong to the caller
+    as soon as the result is lifted; borrowed arguments are dropped by the harness, which created their owners.
+    Export: `own` arguments belong to the user function (the stub drops them), borrowed ones must be dropped before the
+    task returns; the result's handles go to the host."""
+    if "error" in o or o.get("subcalls"):
+        return []
+    po, pb, ro = handles_of(m, o["vals"], o["ret"])
+    if not (po or pb or ro):
+        return []
+    got = sorted(h for _, h in o.get("handle_drops", []))
+    if kind == "import":
+        toks = o.get("tokens", "")
+        lifted = ("return:1" in toks)             # the host stored a result, the runtime lifted it (also on cancel answered RETURNED)
+        want = list(pb) + (ro if lifted else []) + (po if not o.get("started") else [])
+    else:
+        # (a borrowed handle of a resource this component does not implement is an entry of the callee's table: the
+        # callee must drop it before it returns — `task.return` traps while the task still holds borrows)
+        want = (list(po) + list(pb)) if o.get("observed_count") else []
+        if o.get("drops_at_return") is not None:
+            early = sorted(o["drops_at_return"])
+            if any(early.count(h) < pb.count(h) for h in set(pb)):
+                return [("borrow-held-at-task-return", "a borrowed handle is still held when the async export calls task.return (the canonical ABI traps)",
+                         {"borrowed": sorted(pb), "dropped_before_task_return": early, "tokens": o.get("tokens")})]
+    if got != sorted(want):
+        return [("handle-ownership", "the guest drops other resource handles than the ones it owns in this scenario",
+                 {"dropped": got, "owned_by_guest": sorted(want), "tokens": o.get("tokens")})]
+    return []
+
+
 def sync_summary(kind, o):
     """ledger summary of a sync outcome, comparable with the async one: (host buffers freed exactly once, #leaked, #allocator errors)"""
     if "error" in o or "call_report" not in o: return None
@@ -620,6 +684,7 @@ def run_scenario(c, runner, kind, ma, vals, ret, spec, handle, cov=None):
 
 def scenario_findings(kind, ma, o, so, async_imports):
     fs = export_findings(ma, o, so) if kind == "export" else import_findings(ma, o, so)
+    fs += ownership_findings(kind, ma, o)
     for sub in o.get("subcalls", []):
         sub_m = next(x for x in async_imports if x["key"] == sub["key"])
         if sub.get("tokens"):
@@ -658,7 +723,7 @@ def run(c):
         cases.append((w.get("variant", "both"), re.sub(r"t:w\d+", "t:wX", w["wit"]), "replay", w.get("config", base)))
     for variant, wit in corpus:
         cases.append((variant, wit, "corpus", base))
-    n_seeded = (13 if quick else 96)
+    n_seeded = int(os.environ.get("VERIF_C08_SEEDED", 13 if quick else 96))
     for _ in range(n_seeded):
         cfg = bc.config_str("owning", c.rng.randint(0, 1), c.rng.randint(0, 1), c.rng.choice(["btree", "hash"]), c.rng.randint(0, 1))
         cases.append((c.rng.choice(VARIANTS), gen_case(c.rng, features, stats), "seeded", cfg))
@@ -894,8 +959,10 @@ def run(c):
                             s_, a_ = sync_summary(kind, so), async_summary(kind, o)
                             if s_ is not None and a_ is not None:
                                 led_req.append(req); led_sync.append(json.dumps(s_, sort_keys=True)); led_async.append(json.dumps(a_, sort_keys=True))
-                            hs, ha = sorted(map(str, so.get("handle_drops", []))), sorted(map(str, o.get("handle_drops", [])))
-                            if hs != ha:
+                            # (the import key carries the item's package name: compare interface#name and the handle)
+                            nd = lambda xs: sorted(f"{k_.split('/')[-1]}:{h_}" for k_, h_ in xs)
+                            hs, ha = nd(so.get("handle_drops", [])), nd(o.get("handle_drops", []))
+                            if hs != ha and not o.get("subcalls"):   # (a nested import call drops handles of its own)
                                 violation("sync-async-differ:handle-drops", "the sync and the async binding drop different resource handles for the same call", k, ma,
                                           {"args": vals, "ret": ret, "scenario": nm, "sync": hs, "async": ha})
                         if len(c.samples) < 6 and not fs and (mem or kind == "export") and nm not in ("finish", "returns-immediately"):
